@@ -18,11 +18,11 @@ import time
 
 sys.path.insert(0, os.path.dirname(os.path.abspath(__file__)))
 import buildlib  # noqa: E402
-from buildlib import VERIF, BUILD  # noqa: E402
+from buildlib import VERIF, BUILD, RUN_ROOT, ALT  # noqa: E402
 import props  # noqa: E402
 
-EVIDENCE = os.path.join(VERIF, "evidence")
-REPLAYS = os.path.join(VERIF, "replays")
+EVIDENCE = os.path.join(VERIF, "evidence") if not ALT else os.path.join(BUILD, "evidence" + ALT)
+REPLAYS = os.path.join(VERIF, "replays") if not ALT else os.path.join(BUILD, "replays" + ALT)
 KNOWN_FILE = os.path.join(VERIF, "known_findings.json")
 
 SAN_ENV = {
@@ -154,7 +154,7 @@ def run_harness_stage(pid, stage, tier, seed, known_sigs, only=None):
     res = StageResult(stage["name"])
     exe = stage_command(stage)
     nshards = stage.get("shards_%s" % tier, 16 if tier == "thorough" else 8)
-    out = os.path.join(BUILD, "run", pid, stage["name"])
+    out = os.path.join(RUN_ROOT, pid, stage["name"])
     shutil.rmtree(out, ignore_errors=True)
     os.makedirs(out)
     kf = os.path.join(out, "known.txt")
@@ -429,7 +429,8 @@ def run_check(pid, tier, only=None):
                 fl["path"] = path
                 violations.append(fl)
                 continue
-            st, sig, text = stage_replayer(r._stage)(pid, r._stage, path, 3 if fl.get("crash") else 1)
+            times = 3 if fl.get("crash") and "case-cpu-limit" not in fl["sig"] else 1
+            st, sig, text = stage_replayer(r._stage)(pid, r._stage, path, times)
             if st == "pass":
                 # The oracle failed on the real code inside the shard but the saved case alone does not reproduce it
                 # (state carried over from earlier cases, or timing). It is still a failure of the code under test:
